@@ -29,6 +29,10 @@ def fam_peer_send(seed, n):
 def fam_peer_recv(seed, n):
     return [scen.peer_recv(seed, i) for i in range(n)]
 
+@family("kf")
+def fam_kf(seed, n):
+    return [scen.kf_d4(seed), scen.kf_d6(seed), scen.kf_d1b(seed), scen.kf_d14(seed), scen.kf_d6b(seed)]
+
 # ------------------------------------------------------------------------------------------
 def sample_of(script):
     c = script["cfg"]
@@ -89,6 +93,51 @@ def c01(tier, seed):
                      "single-threaded deterministic runtime: real-thread races between application calls and the connection task are not explored"]
     return r.finish(rule_text=GENERAL_RULE, required_cov=["C01.SegContiguous", "C01.ReadIsPrefix", "C01.SegStable", "C01.NoGarbage"])
 
+def std_check(pid, families, required, model_spec=None, assumptions=None, extra_prefixes=None):
+    """Generic check: optional bounded model + scenario families + trace validation."""
+    def f(tier, seed):
+        r = Result(pid, tier, seed)
+        if model_spec:
+            for (spec, cq, ct) in model_spec:
+                model(r, spec, cq, ct)
+        scripts = []
+        for (fam, nq, nt) in families:
+            scripts += FAMILIES[fam](seed, sizes(tier, nq, nt))
+        r.samples = [sample_of(s) for s in scripts[:2]]
+        r.add_validated(core.run_and_validate(pid, scripts), rules_prefix=[pid + "."] + list(extra_prefixes or []))
+        r.assumptions = list(assumptions or []) + [
+            "single-threaded deterministic runtime under tokio virtual time; the OS/UDP layer is replaced by the simulated Transport",
+            "hook values (cfg librqbit_utp_verif) are read-only copies of the implementation's state"]
+        return r.finish(rule_text=GENERAL_RULE, required_cov=required)
+    CHECKS[pid] = f
+    return f
+
+DATA_MODEL = [("MCData", "MCData_quick", "MCData")]
+
+std_check("C04", [("peer_recv", 100, 1500), ("xfer", 30, 400)],
+          ["C04.AckExact", "C04.AckMonotone", "C04.SackExact", "C04.WindowHonest", "C04.WithinBuffer", "C04.ConsumeExact",
+           "C04.OutOfOrderIsAhead", "C04.DuplicateIsOld", "C04.AlreadyPresentIsHeld"], model_spec=DATA_MODEL)
+std_check("C05", [("peer_send", 100, 1500), ("xfer", 30, 400)],
+          ["C05.WindowRespected", "C05.ZeroWindowSilence", "C05.SlowStartBound", "C05.OneSegmentAfterRto"], model_spec=DATA_MODEL)
+std_check("C06", [("peer_send", 120, 2000), ("xfer", 30, 400)],
+          ["C06.SegStable", "C06.NeverRetxAcked", "C06.Cap", "C06.RetxAllowed", "C06.RtoNotEarly", "C06.Backoff",
+           "C06.RtoRange", "C06.RtoFires", "C06.TimerArmed"], model_spec=DATA_MODEL)
+std_check("C07", [("peer_recv", 120, 2000), ("xfer_clean", 20, 200)],
+          ["C07.NoSpontaneousAck", "C07.DelayedAck", "C07.ImmediateAck"])
+std_check("C19", [("peer_send", 100, 1500), ("xfer", 30, 300)],
+          ["C19.TxBounded", "C19.WriteNotStuck"], model_spec=DATA_MODEL)
+
+def external(pid, modname):
+    def f(tier, seed):
+        import importlib
+        m = importlib.import_module("vlib." + modname)
+        return m.run(tier, seed)
+    CHECKS[pid] = f
+
+for _pid, _mod in (("C09", "c09"), ("C11", "c11"), ("C15", "c15"), ("C16", "c16")):
+    if os.path.exists(os.path.join(os.path.dirname(__file__), _mod + ".py")):
+        external(_pid, _mod)
+
 def run(pid, tier, seed):
     if pid not in CHECKS:
         print(f"unknown property {pid}", file=sys.stderr)
@@ -98,18 +147,27 @@ def run(pid, tier, seed):
 
 def replay(path):
     d = json.load(open(path))
+    pid = d["property"]
+    mod = {"C09": "c09", "C11": "c11", "C15": "c15", "C16": "c16"}.get(pid)
+    sc = d.get("script")
+    if mod and not (isinstance(sc, dict) and "steps" in sc):
+        import importlib
+        return importlib.import_module("vlib." + mod).replay(path)
     core.build_harness()
-    res = core.run_and_validate("replay", [d["script"]], shards=1)
+    res = core.run_and_validate("replay", [sc], shards=1)
     v, _ = res[0]
-    hits = [x for x in v["viol"] if x["rule"].startswith(d["property"] + ".")]
+    hits = [x for x in v["viol"] if x["rule"].startswith(pid + ".")]
     for x in hits:
         print("violation:", json.dumps(x), core.trace_line(v["trace"], x["line"])[:300])
     print("trace:", v["trace"])
-    if hits:
-        print(f"VIOLATION property={d['property']} replay={path}")
+    known, _ = core.load_known()
+    real = [x for x in hits if not any(k["property"] == pid and k["sig"] == core.signature(x) for k in known)]
+    if real:
+        print(f"VIOLATION property={pid} replay={path}")
         return 1
     return 0
 
 def setup():
     core.build_harness()
+    core.sh(["cargo", "build", "--offline", "--bins"], cwd=os.path.join(core.ROOT, "unit"), timeout=1800)
     return 0
